@@ -126,7 +126,8 @@ Record traj := mkTraj {
   tm : arr tval;                            (* _time *)
   ul : option (arr cval);                   (* _unitcell_lengths *)
   ua : option (arr cval);                   (* _unitcell_angles *)
-  tloc : nat; chains : list (list nat);     (* _topology: object identity; chains of atom kinds (one atom per residue,
+  tloc : nat; chains : list (list nat);     (* _topology: identity of the WHOLE object graph (independence of the graphs made by
+                                               deepcopy / subset / Topology.join is C04's copy_independent etc.); chains of atom kinds (one atom per residue,
                                                kind >= 100: solvent residue).  Topology.__eq__ compares exactly this *)
   tr : option (arr fr);                     (* _rmsd_traces: entry i is the trace of the frame term stored *)
   tdef : bool }.                            (* _time_default_to_arange *)
@@ -444,14 +445,29 @@ Definition do_join (v : variant) (w : world) (r : nat) (others : list nat) (chec
   | _, _ => (w, RErr EOther)
   end.
 
-(* md.join(list) = functools.reduce(lambda x, y: x.join(y), list).  Every intermediate result has the first
-   operand's atom count, topology (a deepcopy) and cell presence, so the pairwise checks of the reduction are
-   exactly the checks of first.join(rest), and the final arrays are the same concatenations; the intermediate
-   objects are unreachable afterwards.  The model therefore takes md.join(ts) = ts[0].join(ts[1:]) (the
-   correspondence run compares both spellings with the implementation). *)
+(* md.join(list, discard_overlapping_frames) = functools.reduce(lambda x, y: x.join(y, ...), list): the accumulated
+   trajectory is joined with the next operand, pairwise, each step making complete fresh copies; the intermediate
+   results are unreachable afterwards, so only the last one becomes a register (their buffers and identities stay
+   consumed).  Each pairwise step is the two-operand join, check_topology=True. *)
+Definition join_pair (v : variant) (w : world) (acc o : traj) (dis : bool) : world * res :=
+  attach_traces w (join_trajs w acc [o] true dis) (join_traces v w acc [o] dis).
+
+Fixpoint mdjoin_reduce (v : variant) (w0 w : world) (acc : traj) (rest : list traj) (dis : bool) : world * res :=
+  match rest with
+  | [] => (mkWorld (hx w) (trajs w0 ++ [acc]) (nbuf w) (ntop w) (nsrc w), ROk)
+  | o :: rest' =>
+    match join_pair v w acc o dis with
+    | (w1, ROk) => match nth_error (trajs w1) (length (trajs w)) with
+                   | Some nt => mdjoin_reduce v w0 w1 nt rest' dis
+                   | None => (w0, RErr EOther)
+                   end
+    | (_, RErr e) => (w0, RErr e)
+    end
+  end.
+
 Definition do_mdjoin (v : variant) (w : world) (rs : list nat) (dis : bool) : world * res :=
   match get_all w rs with
-  | Some (t :: o :: rest) => attach_traces w (join_trajs w t (o :: rest) true dis) (join_traces v w t (o :: rest) dis)
+  | Some (t :: o :: rest) => mdjoin_reduce v w w t (o :: rest) dis
   | _ => (w, RErr EOther)     (* fewer than two operands: outside the modelled alphabet *)
   end.
 
@@ -677,7 +693,9 @@ Inductive op :=
 | OSetTimeShare (r r' : nat)
 | OSetLengths (r : nat) (m : option nat)
 | OSetAngles (r : nat) (m : option nat)
-| OSetVectors (r : nat) (m : option nat) (allzero : bool).
+| OSetVectors (r : nat) (m : option nat) (allzero : bool)
+| OReadCell (r : nat).       (* reading unitcell_vectors / unitcell_volumes / unitcell_lengths / unitcell_angles, or a periodic
+                                distance computation: observers; they leave every register as it is (no derived value is kept) *)
 
 Definition step (v : variant) (w : world) (o : op) : world * res :=
   match o with
@@ -696,6 +714,7 @@ Definition step (v : variant) (w : world) (o : op) : world * res :=
   | OSetLengths r m => do_set_cell_part w r false m
   | OSetAngles r m => do_set_cell_part w r true m
   | OSetVectors r m z => do_set_vectors w r m z
+  | OReadCell r => match nth_error (trajs w) r with Some _ => (w, ROk) | None => (w, RErr EOther) end
   end.
 
 Fixpoint run (v : variant) (w : world) (ops : list op) : world * list res :=
